@@ -147,6 +147,13 @@ func readPaced(rd io.Reader, want int, pacing string, rng *prng.R, timeout time.
 func runC05(r resIface, c *c05case, rng *prng.R, scratch string) {
 	rdb := codeBytes(c.Seed, c.N)
 	stream := codeBytes(c.Seed+1, c.Stream)
+	if c.Index%5 == 3 {
+		// the command stream opens with keep-alive newlines (a master sends them while it has nothing to say): they are
+		// stream bytes like any other - counted in offsets, handed to the parser
+		for k := 0; k < len(stream) && k < 1+c.Index%3; k++ {
+			stream[k] = '\n'
+		}
+	}
 	// make the stream start with a byte that cannot be mistaken for RDB content at the boundary
 	sig := func(o string) string { return fmt.Sprintf("C05|path=%s|outcome=%s", c.Path, o) }
 	if c.Path == "iocopy" {
